@@ -108,7 +108,9 @@ func c20Processes(c *lib.Ctx) {
 		return
 	}
 	bases := []string{"git commit", "compress files", "list files", "gt cmmit", "unpack", "zzzzzzzzzz epos", "install package", "show folder", "files", "tar",
-		"how to find the largest files in a directory", "find files without opening"}
+		"how to find the largest files in a directory", "find files without opening",
+		// conversational openings in front of words the databases index
+		"how do i list files", "i want to compress files", "command to find files"}
 	vary := []func(string) string{
 		strings.ToUpper,
 		strings.Title,
@@ -132,12 +134,18 @@ func c20Processes(c *lib.Ctx) {
 	for _, dbn := range []string{"forty", "pool"} {
 		cmds := uForty()
 		if dbn == "pool" {
-			cmds = uPool()
+			// plus an entry made of the filler words of conversational openings (they are ordinary words to the index)
+			cmds = append(uPool(), Cmd{Command: "wantdo --command", Description: "Do what you want: the command to do it, how you want", Keywords: []string{"want", "do", "command", "how"}})
 		}
 		for _, b := range bases {
 			for vi, f := range vary {
-				for _, flags := range [][]string{{"--no-color"}, {"--no-color", "--format", "json", "-a"}} {
+				for fi, flags := range [][]string{{"--no-color"}, {"--no-color", "--format", "json", "-a"}, {"--no-color", "-a"}} {
 					idx++
+					// third flag set: the same under a Turkish locale (special-casing rules for I / i exist there)
+					var extraEnv []string
+					if fi == 2 {
+						extraEnv = []string{"LC_ALL=tr_TR.UTF-8", "LANG=tr_TR.UTF-8", "LC_CTYPE=tr_TR.UTF-8"}
+					}
 					if !c.Mine(int64(idx)) {
 						continue
 					}
@@ -148,9 +156,9 @@ func c20Processes(c *lib.Ctx) {
 					dbPath := filepath.Join(env.Cwd, "db.yml")
 					writeYAML(dbPath, cmds)
 					args := append(append([]string{"-d", dbPath}, flags...), "--")
-					r1 := env.run(bin, nil, append(args, b)...)
+					r1 := env.run(bin, extraEnv, append(args, b)...)
 					os.Remove(env.HistoryPath())
-					r2 := env.run(bin, nil, append(args, f(b))...)
+					r2 := env.run(bin, extraEnv, append(args, f(b))...)
 					c.Rep.Evaluations += 2
 					c.Count("cli_pairs", 1)
 					o1 := stripEcho.ReplaceAllString(r1.Out, "")
